@@ -2,7 +2,8 @@
     field of coefficients (see Base/Num.v).  A polynomial is the list of its
     coefficients, constant term first (num_coeffs = length). *)
 From Coq Require Import ZArith List.
-From SB Require Import Base.Num Gen.Generated.
+From Coq Require Import QArith.
+From SB Require Import Base.Num Base.F32 Gen.Generated.
 Import ListNotations.
 
 Section Poly.
@@ -79,3 +80,17 @@ Section Poly.
     | c0 :: r => add o c0 c :: r
     end.
 End Poly.
+
+(** sb_poly_make_linear as the C code has it, with the branch for a duration
+    below FLT_EPSILON in magnitude (the constant (x0+x1)/2, slope 0), and
+    sb_poly_make_bezier with it.  The generic [make_bezier] above is this
+    function on every duration that is not tiny ([make_bezier_c_agrees]). *)
+Definition make_linear_c (duration x0 x1 : Q) : list Q :=
+  if Qle_bool FLT_EPSILON (Qabs' duration) then make_linear QOps duration x0 x1
+  else [Qred ((x0 + x1) / 2); 0%Q].
+
+Definition make_bezier_c (duration : Q) (xs : list Q) : list Q :=
+  match xs with
+  | [x0; x1] => make_linear_c duration x0 x1
+  | _ => make_bezier QOps duration xs
+  end.
